@@ -213,6 +213,19 @@ class IPv8Stub:
         return overlay.unload()
 
 
+def real_service(node: Any) -> Any:
+    """
+    A real ``ipv8_service.IPv8`` instance without configured overlays on the node's simulated endpoint: the service
+    object an application hands to HiddenTunnelCommunity; once started it ticks the walkers registered with it.
+    """
+    from ipv8_service import IPv8
+    inst = IPv8({"interfaces": [], "keys": [], "logger": {"level": "CRITICAL"}, "working_directory": ".",
+                 "walker_interval": 0.5, "overlays": []}, endpoint_override=node.endpoint)
+    inst.network = node.network
+    inst.node = node
+    return inst
+
+
 class HiddenWorld(World):
     """
     n HiddenTunnelCommunity nodes with production default settings, a shared dictionary DHT and IPv8 stubs.
@@ -233,7 +246,7 @@ class HiddenWorld(World):
         for i in range(n):
             node = nodes_mod.Node(self.net, i)
             node.flags = set(flags(i)) if flags is not None else set(allf)
-            stub = IPv8Stub(node)
+            stub = IPv8Stub(node) if service != "real" else real_service(node)
             ov = node.add(HiddenTunnelCommunity, ipv8=stub if service else None, dht_provider=DictDHT(self.dht_table), **settings)
             ov.settings.peer_flags = set(node.flags)
             stub.overlays.append(ov)
